@@ -12,6 +12,7 @@ CONSTANTS
   EnvAtQuiet = TRUE
   GenNoFaults = FALSE
   GenHold = 0
+  MaxPhantom = 0
 SPECIFICATION Spec
 INVARIANTS TypeOK SlotRange CapacityHonoured ReleasedAtMostOnce ReleasedAtEnd RelayPolicy FullCapacityAgain
 CHECK_DEADLOCK TRUE
